@@ -54,8 +54,13 @@ func (w *World) installByzantineRelay(r *prng) {
 				}
 			}
 		case 2:
-			for _, g := range honestSigs {
-				cp := *g
+			var as []string
+			for a := range honestSigs {
+				as = append(as, a)
+			}
+			sortStrings(as)
+			for _, a := range as {
+				cp := *honestSigs[a]
 				*gs = append(*gs, &cp)
 			}
 		case 3:
@@ -75,7 +80,12 @@ func (w *World) installByzantineRelay(r *prng) {
 				*gs = append(*gs, g)
 			}
 		case 5:
+			var as []string
 			for addr := range w.Nodes[to].Goss.Peers() {
+				as = append(as, addr)
+			}
+			sortStrings(as)
+			for _, addr := range as {
 				*gs = append(*gs, &pb.Gossiper{Address: addr, Digest: w.rng.Bytes(32), Signature: w.rng.Bytes(64)})
 			}
 		default:
